@@ -2,6 +2,7 @@
 //! real code. Sub-commands are documented in /verif/DESIGN.md section 4.
 
 mod ast;
+mod classes;
 mod dot;
 mod dump;
 mod exec;
@@ -30,6 +31,7 @@ fn main() {
         "dump" => dump::main(&args[2..]),
         "dotcheck" => dot::main(&args[2..]),
         "serde" => serde_check::main(&args[2..]),
+        "classes" => classes::main(&args[2..]),
         other => {
             eprintln!("unknown sub-command {other}");
             2
